@@ -53,11 +53,21 @@ def Ev.argIdents : Ev → List Var
 /-- everything that is grounded after the item -/
 def Ev.grounds (ev : Ev) : List Var := ev.argIdents ++ ev.binderVars
 
+/-- the bound arguments of an aggregation (`agg p = f(bound..) in rel(args..)`): they are local to the aggregation
+(not grounded after it), but they are binders — each introduces a variable that ranges over the aggregated rows
+(since fix 4509942 they are tested like every other binder; formerly finding FM2) -/
+def Ev.boundVars : Ev → List Var
+  | .agg _ _ _ bound => bound
+  | _ => []
+
 /-- some pattern of some rule binds a variable that is already grounded at that position — by an earlier
-item of the rule, by the identifier arguments of the same clause, or twice by the patterns of the item -/
+item of the rule, by the identifier arguments of the same clause, or twice by the patterns of the item —, or some
+aggregation has a bound argument that is already grounded at that position by an earlier item of the rule
+(`c(y), agg m = min(y) in a(y)`), or the same bound argument twice (`agg m = f(y, y) in a(y)`) -/
 def IllFormedRebind (rules : List CoreRule) : Prop :=
   ∃ r ∈ rules, ∃ pre ev post, r.body = pre ++ ev :: post ∧
-    (¬ ev.binderVars.Nodup ∨ ∃ v ∈ ev.binderVars, v ∈ pre.flatMap Ev.grounds ++ ev.argIdents)
+    (¬ ev.binderVars.Nodup ∨ (∃ v ∈ ev.binderVars, v ∈ pre.flatMap Ev.grounds ++ ev.argIdents) ∨
+      ¬ ev.boundVars.Nodup ∨ ∃ v ∈ ev.boundVars, v ∈ pre.flatMap Ev.grounds)
 
 /-- variables a pattern binds although `pattern_get_vars` does not report them -/
 def Ev.hiddenVars : Ev → List Var
@@ -167,7 +177,8 @@ def dsOk (as : List AttrS) : Prop :=
 structure WellFormedCore (s : Summary) (rules : List CoreRule) : Prop where
   declared : ∀ r ∈ rules, ∀ o ∈ r.occurrences, ∃ d, findDecl s.decls o.1 = some d ∧ d.arity = o.2
   fresh : ∀ r ∈ rules, ∀ pre ev post, r.body = pre ++ ev :: post →
-    ev.binderVars.Nodup ∧ ∀ v ∈ ev.binderVars, v ∉ pre.flatMap Ev.grounds ++ ev.argIdents
+    ev.binderVars.Nodup ∧ (∀ v ∈ ev.binderVars, v ∉ pre.flatMap Ev.grounds ++ ev.argIdents) ∧
+      ev.boundVars.Nodup ∧ ∀ v ∈ ev.boundVars, v ∉ pre.flatMap Ev.grounds
   attrsKnown : ∀ a ∈ s.attrs, a.name ∈ recognizedAttrs
   attrsPlain : ∀ a ∈ s.attrs, a.name ≠ "ds" → a.shape = .path
   parOnly : (∃ a ∈ s.attrs, a.name = "inter_rule_parallelism") → s.kind.parallel = true
